@@ -190,16 +190,16 @@ def c10_absolute(w, act, st, rec, fresh, recF):
         rows = s.get("rows", 1) * s.get("cols", 1)
         g = ini.get(name)
         sym = act.syms[name]
-        if kind == "state":
+        if kind in ("state", "hstate"):
             e = ocp.sample(sym, grid="control")[1]
-            got = _eval(opti, rec, e)
             exp = guess_matrix(g, rows, tc, list(range(N + 1)), pvals)
             if cls == "SingleShooting":
-                cmp(name, "at node 0", got[:, :1], exp[:, :1])
+                # only x(t0) is a decision variable (the later nodes would need the integrator to be evaluated)
+                cmp(name, "at node 0", _eval(opti, rec, e[:, 0]), exp[:, :1])
                 cover(e[:, 0])
-            else:
-                cmp(name, "at control nodes", got, exp)
-                cover(e)
+                continue
+            cmp(name, "at control nodes", _eval(opti, rec, e), exp)
+            cover(e)
             if cls == "DirectCollocation":
                 e = ocp.sample(sym, grid="integrator")[1]
                 tt = [t for (_, _, t, _) in ti] + [tc[-1]]
@@ -262,8 +262,10 @@ def c10_absolute(w, act, st, rec, fresh, recF):
         x0 = np.asarray(rec["x0"])
         if np.any(np.abs(x0[~jac_cols]) > 1e-12):
             w.probe("c10_unlabelled_nonzero")
-    # guesses never change the objective or the constraints
-    if spec.initial:
+    # guesses never change the objective or the constraints (not judged with a built-in DAE integrator and a guess for
+    # an algebraic variable: that guess is the integrator's own starting value and moves its result within its tolerance)
+    builtin_dae = m.get("intg") in ("idas", "collocation", "cvodes") and any(spec.sym(x) and spec.sym(x)["kind"] == "algebraic" for x, _ in spec.initial)
+    if spec.initial and not builtin_dae:
         sp2 = spec.clone()
         sp2.initial = []
         try:
